@@ -16,7 +16,12 @@ Section Generic.
   Variable rows : list (list Z).
   Variable own : list bool.
 
-  Definition posvec (i : nat) : list (string * nat) := map (fun p => (fst p, i)) (init_pos P).
+  Definition posvec (i : nat) : list (string * nat) := map (fun p => (fst p, i)) (init_pos args P).
+
+  (* no source of this pipe walks backwards (those start at the length, not at 0) *)
+  Definition no_back : bool :=
+    forallb (fun s => match snd s with KIterBack _ _ => false | _ => true end) (p_srcs P).
+  Hypothesis Hnb : no_back = true.
 
   Definition res (i : nat) (row : list Z) : sres :=
     if is_pan pan i then RPanic else RItem (f i row).
@@ -42,10 +47,11 @@ Section Generic.
   Lemma moves_app o a b : moves o (a ++ b) = moves o a ++ moves o b.
   Proof. unfold moves. apply flat_map_app. Qed.
 
-  Lemma init_pos_zero : posvec 0 = init_pos P.
+  Lemma init_pos_zero : posvec 0 = init_pos args P.
   Proof.
-    unfold posvec, init_pos. induction (p_srcs P) as [|[n k] l IH]; [reflexivity|].
-    cbn [flat_map]. rewrite map_app, IH. f_equal. destruct k; reflexivity.
+    unfold posvec, init_pos. unfold no_back in Hnb. induction (p_srcs P) as [|[n k] l IH]; [reflexivity|].
+    cbn [forallb] in Hnb. apply andb_prop in Hnb. destruct Hnb as [Hk Hl].
+    cbn [flat_map]. rewrite map_app, (IH Hl). f_equal. destruct k; try reflexivity. discriminate.
   Qed.
 
   Lemma state_nice init : forall i, i <= length rows ->
@@ -118,6 +124,15 @@ Section Programs.
 
   Definition pipe_of (F : fnprog) (nd : nat -> bool) : pipe := select nd F.
 
+  Lemma nb_of (F : fnprog) nd :
+    match F with
+    | FPipe p => no_back p
+    | FIfNeedsDrop _ t e => no_back t && no_back e
+    end = true -> no_back (pipe_of F nd) = true.
+  Proof.
+    destruct F as [p|c t e]; cbn; [easy|]. intros H. apply andb_prop in H. destruct H. now destruct (nd_eval nd c).
+  Qed.
+
   (* symbolic execution of one closure call from a state whose positions equal the index *)
   Ltac pipe_step Hp Hl :=
     unfold posvec in Hp; cbn in Hp;
@@ -147,12 +162,12 @@ Section Programs.
   Theorem tie_map a so nd :
     flat5 (run_from_iter [a] so f g pan (pipe_of gen_map nd) (length a)) = map_ true f pan a.
   Proof.
-    pose proof (from_iter_run [a] so f g pan _ _ _ (map_good a so nd)) as H.
+    pose proof (from_iter_run [a] so f g pan _ _ _ (nb_of gen_map nd eq_refl) (map_good a so nd)) as H.
     rewrite map_length in H. rewrite H. unfold map_, zipmap. rewrite map_length.
     destruct (try_from_iter (length a) (pipe_src f pan (map (fun x => [x]) a))) as [[o e] p].
     cbv zeta. unfold flat5. f_equal. f_equal. f_equal. f_equal.
     unfold teardown. cbn [pipe_of select gen_map p_srcs rev app flat_map snd nth_error].
-    rewrite (final_positions [a] so f g pan _ _ _ (map_good a so nd)) by (rewrite map_length; lia).
+    rewrite (final_positions [a] so f g pan _ _ _ (nb_of gen_map nd eq_refl) (map_good a so nd)) by (rewrite map_length; lia).
     cbn. rewrite app_nil_r, skipn_map, drops_single. reflexivity.
   Qed.
 
@@ -213,13 +228,13 @@ Section Programs.
            (zip_ true true f pan a b).
   Proof.
     intros Hlen Hnd.
-    pose proof (from_iter_run [b; a] so f g pan _ _ _ (zip_good a b so nd Hnd)) as H.
+    pose proof (from_iter_run [b; a] so f g pan _ _ _ (nb_of gen_inverted_zip nd eq_refl) (zip_good a b so nd Hnd)) as H.
     rewrite (zrows_length a b Hlen) in H. rewrite H. unfold zip_, zipmap. fold (zrows a b).
     rewrite (zrows_length a b Hlen).
     destruct (try_from_iter (length a) (pipe_src f pan (zrows a b))) as [[o e] p].
     cbv zeta. unfold agrees. eexists. split; [reflexivity|].
     unfold teardown.
-    rewrite (final_positions [b; a] so f g pan _ _ _ (zip_good a b so nd Hnd)) by (rewrite zrows_length by exact Hlen; lia).
+    rewrite (final_positions [b; a] so f g pan _ _ _ (nb_of gen_inverted_zip nd eq_refl) (zip_good a b so nd Hnd)) by (rewrite zrows_length by exact Hlen; lia).
     unfold pipe_of, gen_inverted_zip, select. rewrite Hnd. cbn. rewrite app_nil_r.
     unfold zrows. rewrite skipn_map, skipn_combine. apply drops_pairs.
     rewrite !skipn_length. lia.
@@ -256,13 +271,13 @@ Section Programs.
            (zip_ so true f pan a b).
   Proof.
     intros Hlen Hnd.
-    pose proof (from_iter_run [b; a] so f g pan _ _ _ (zip2_good a b so nd Hnd)) as H.
+    pose proof (from_iter_run [b; a] so f g pan _ _ _ (nb_of gen_inverted_zip2 nd eq_refl) (zip2_good a b so nd Hnd)) as H.
     rewrite (zrows_length a b Hlen) in H. rewrite H. unfold zip_, zipmap. fold (zrows a b).
     rewrite (zrows_length a b Hlen).
     destruct (try_from_iter (length a) (pipe_src f pan (zrows a b))) as [[o e] p].
     cbv zeta. unfold agrees. eexists. split; [reflexivity|].
     unfold teardown.
-    rewrite (final_positions [b; a] so f g pan _ _ _ (zip2_good a b so nd Hnd)) by (rewrite zrows_length by exact Hlen; lia).
+    rewrite (final_positions [b; a] so f g pan _ _ _ (nb_of gen_inverted_zip2 nd eq_refl) (zip2_good a b so nd Hnd)) by (rewrite zrows_length by exact Hlen; lia).
     unfold pipe_of, gen_inverted_zip2, select. rewrite Hnd. cbn.
     unfold zrows. rewrite skipn_map, skipn_combine. fold (zrows (skipn (Nat.min p (length a)) a) (skipn (Nat.min p (length a)) b)).
     assert (Hl' : length (skipn (Nat.min p (length a)) a) = length (skipn (Nat.min p (length a)) b))
@@ -291,7 +306,7 @@ Section Programs.
     t = [] /\ exists t', zip_ true true f pan a b = (o, (m ++ t' ++ e)%list, c).
   Proof.
     intros Hlen Hnd.
-    pose proof (from_iter_run [b; a] so f g pan _ _ _ (zip_nodrop_good a b so nd Hnd)) as H.
+    pose proof (from_iter_run [b; a] so f g pan _ _ _ (nb_of gen_inverted_zip nd eq_refl) (zip_nodrop_good a b so nd Hnd)) as H.
     rewrite (zrows_length a b Hlen) in H. rewrite H. unfold zip_, zipmap. fold (zrows a b).
     rewrite (zrows_length a b Hlen).
     destruct (try_from_iter (length a) (pipe_src f pan (zrows a b))) as [[o e] p].
@@ -315,7 +330,7 @@ Section Programs.
     exists t', zip_ so true f pan a b = (o, (m ++ t' ++ e)%list, c).
   Proof.
     intros Hlen Hnd.
-    pose proof (from_iter_run [b; a] so f g pan _ _ _ (zip2_nodrop_good a b so nd Hnd)) as H.
+    pose proof (from_iter_run [b; a] so f g pan _ _ _ (nb_of gen_inverted_zip2 nd eq_refl) (zip2_nodrop_good a b so nd Hnd)) as H.
     rewrite (zrows_length a b Hlen) in H. rewrite H. unfold zip_, zipmap. fold (zrows a b).
     rewrite (zrows_length a b Hlen).
     destruct (try_from_iter (length a) (pipe_src f pan (zrows a b))) as [[o e] p].
@@ -328,7 +343,7 @@ Section Programs.
 
   (* ---- fold: one consumer, the accumulator threaded through the caller's function ---- *)
   Lemma fold_step a so nd i st x : nth_error a i = Some x ->
-    s_pos st = posvec (pipe_of gen_fold nd) i -> length (s_calls st) = i ->
+    s_pos st = posvec [a] (pipe_of gen_fold nd) i -> length (s_calls st) = i ->
     step [a] so f g pan (pipe_of gen_fold nd) i st =
     ((if is_pan pan i then RPanic else RUnit),
      mkP [("position", S i)] (s_ev st ++ [EMove x]) (s_calls st ++ [[x]]) (s_written st)
@@ -348,7 +363,7 @@ Section Programs.
 
   Lemma fold_run_spec a so nd : forall l i st,
     (forall j x, nth_error l j = Some x -> nth_error a (i + j) = Some x) ->
-    s_pos st = posvec (pipe_of gen_fold nd) i -> length (s_calls st) = i ->
+    s_pos st = posvec [a] (pipe_of gen_fold nd) i -> length (s_calls st) = i ->
     let '(o, c) := fold_loop g pan i (s_acc st) l in
     exists st', fold_run [a] so f g pan (pipe_of gen_fold nd) (length l) i st = (fold_ok_b o, st', c) /\
       s_pos st' = [("position", c)] /\
@@ -385,7 +400,7 @@ Section Programs.
     (o, (m ++ t)%list, List.concat c) = fold_ true g pan init a.
   Proof.
     unfold run_fold, fold_.
-    pose proof (fold_run_spec a so nd a 0 (init_state (pipe_of gen_fold nd) init)) as H.
+    pose proof (fold_run_spec a so nd a 0 (init_state [a] (pipe_of gen_fold nd) init)) as H.
     cbn [s_acc init_state] in H.
     destruct (fold_loop g pan 0 init a) as [o c] eqn:Hloop.
     destruct H as (st' & Hrun & Hp' & He' & Hc' & Ha'); [intros j x Hj; exact Hj|reflexivity|reflexivity|].
@@ -396,9 +411,169 @@ Section Programs.
     - clear. induction (firstn c a) as [|x l IH]; [reflexivity|]. cbn. now rewrite IH.
   Qed.
 
+  (* ---- GenericArrayIter::fold (src/iter.rs): the live window consumed from the front, the
+          iterator's own index as the position; on unwinding the iterator's Drop releases the rest ---- *)
+  Lemma it_fold_step a so nd i st x : nth_error a i = Some x ->
+    s_pos st = posvec [a] (pipe_of gen_iter_fold nd) i -> length (s_calls st) = i ->
+    step [a] so f g pan (pipe_of gen_iter_fold nd) i st =
+    ((if is_pan pan i then RPanic else RUnit),
+     mkP [("index", S i)] (s_ev st ++ [EMove x]) (s_calls st ++ [[x]]) (s_written st)
+         (if is_pan pan i then s_acc st else g i (s_acc st) x)).
+  Proof. intros Hx Hp Hl. pipe_step Hp Hl. Qed.
+
+  Lemma it_fold_run_spec a so nd : forall l i st,
+    (forall j x, nth_error l j = Some x -> nth_error a (i + j) = Some x) ->
+    s_pos st = posvec [a] (pipe_of gen_iter_fold nd) i -> length (s_calls st) = i ->
+    let '(o, c) := fold_loop g pan i (s_acc st) l in
+    exists st', fold_run [a] so f g pan (pipe_of gen_iter_fold nd) (length l) i st = (fold_ok_b o, st', c) /\
+      s_pos st' = [("index", c)] /\
+      s_ev st' = (s_ev st ++ map EMove (firstn (c - i) l))%list /\
+      s_calls st' = (s_calls st ++ map (fun x => [x]) (firstn (c - i) l))%list /\
+      (forall acc', o = FoldOk acc' -> s_acc st' = acc').
+  Proof.
+    induction l as [|x l IH]; intros i st Hl Hp Hc.
+    - cbn. exists st. rewrite Nat.sub_diag. cbn. rewrite !app_nil_r. repeat split; try reflexivity.
+      + exact Hp.
+      + now intros acc' [= <-].
+    - cbn [fold_loop length fold_run].
+      assert (Hx : nth_error a i = Some x) by (rewrite <- (Nat.add_0_r i); apply Hl; reflexivity).
+      rewrite (it_fold_step a so nd i st x Hx Hp Hc).
+      change (match pan with Some k => Nat.eqb i k | None => false end) with (is_pan pan i).
+      destruct (is_pan pan i) eqn:Hpan.
+      + eexists. split; [reflexivity|]. replace (S i - i) with 1 by lia. cbn.
+        repeat split; try reflexivity. intros acc' H; discriminate.
+      + specialize (IH (S i) (mkP [("index", S i)] (s_ev st ++ [EMove x]) (s_calls st ++ [[x]]) (s_written st) (g i (s_acc st) x))).
+        cbn [s_acc s_pos s_calls s_ev] in IH.
+        destruct (fold_loop g pan (S i) (g i (s_acc st) x) l) as [o c] eqn:Hloop.
+        destruct IH as (st' & Hrun & Hp' & He' & Hc' & Ha').
+        * intros j y Hy. replace (S i + j) with (i + S j) by lia. now apply Hl.
+        * reflexivity.
+        * rewrite app_length. cbn. lia.
+        * exists st'. split; [exact Hrun|].
+          assert (Hci : S i <= c) by (eapply fold_loop_ge; exact Hloop).
+          replace (c - i) with (S (c - S i)) by lia. cbn [firstn map].
+          rewrite He', Hc', <- !app_assoc. cbn. repeat split; try reflexivity; assumption.
+  Qed.
+
+  Theorem tie_iter_fold a so nd init :
+    let '(o, m, t, c) := run_fold [a] so f g pan (pipe_of gen_iter_fold nd) (length a) init in
+    (o, (m ++ t)%list, List.concat c) = fold_ true g pan init a.
+  Proof.
+    unfold run_fold, fold_.
+    pose proof (it_fold_run_spec a so nd a 0 (init_state [a] (pipe_of gen_iter_fold nd) init)) as H.
+    cbn [s_acc init_state] in H.
+    destruct (fold_loop g pan 0 init a) as [o c] eqn:Hloop.
+    destruct H as (st' & Hrun & Hp' & He' & Hc' & Ha'); [intros j x Hj; exact Hj|reflexivity|reflexivity|].
+    rewrite Hrun. rewrite Nat.sub_0_r in *. cbn [s_ev s_calls init_state app] in He', Hc'.
+    rewrite He', Hc'. unfold teardown. cbn. rewrite Hp'. cbn. rewrite app_nil_r.
+    f_equal; [f_equal|].
+    - destruct o as [acc'|]; cbn; [|reflexivity]. now rewrite (Ha' acc' eq_refl).
+    - clear. induction (firstn c a) as [|x l IH]; [reflexivity|]. cbn. now rewrite IH.
+  Qed.
+
+  (* ---- GenericArrayIter::rfold: the live window consumed from the back; the position is the
+          iterator's index_back, decremented before the caller's function is called ---- *)
+  Local Arguments Nat.ltb : simpl never.
+
+  Lemma it_rfold_step a so nd i st x : i < length a -> nth_error a (length a - 1 - i) = Some x ->
+    s_pos st = [("index_back", length a - i)] -> length (s_calls st) = i ->
+    step [a] so f g pan (pipe_of gen_iter_rfold nd) i st =
+    ((if is_pan pan i then RPanic else RUnit),
+     mkP [("index_back", length a - S i)] (s_ev st ++ [EMove x]) (s_calls st ++ [[x]]) (s_written st)
+         (if is_pan pan i then s_acc st else g i (s_acc st) x)).
+  Proof.
+    intros Hi Hx Hp Hl.
+    unfold step, pipe_of, select; cbn; unfold arg_elem; cbn.
+    destruct (Nat.ltb_spec i (length a)) as [_|]; [|lia]. cbn. rewrite Hx. cbn. rewrite Hp. cbn.
+    replace (length a - i) with (S (length a - S i)) by lia. cbn.
+    rewrite ?Z.eqb_refl, Hl.
+    destruct (is_pan pan i); cbn; rewrite ?Z.eqb_refl; unfold leave; cbn; rewrite ?app_nil_r; reflexivity.
+  Qed.
+
+  Lemma it_rfold_run_spec a so nd : forall l i st,
+    (forall j x, nth_error l j = Some x -> i + j < length a /\ nth_error a (length a - 1 - (i + j)) = Some x) ->
+    s_pos st = [("index_back", length a - i)] -> length (s_calls st) = i ->
+    let '(o, c) := fold_loop g pan i (s_acc st) l in
+    exists st', fold_run [a] so f g pan (pipe_of gen_iter_rfold nd) (length l) i st = (fold_ok_b o, st', c) /\
+      s_pos st' = [("index_back", length a - c)] /\
+      s_ev st' = (s_ev st ++ map EMove (firstn (c - i) l))%list /\
+      s_calls st' = (s_calls st ++ map (fun x => [x]) (firstn (c - i) l))%list /\
+      (forall acc', o = FoldOk acc' -> s_acc st' = acc').
+  Proof.
+    induction l as [|x l IH]; intros i st Hl Hp Hc.
+    - cbn. exists st. rewrite Nat.sub_diag. cbn. rewrite !app_nil_r. repeat split; try reflexivity.
+      + exact Hp.
+      + now intros acc' [= <-].
+    - cbn [fold_loop length fold_run].
+      destruct (Hl 0 x eq_refl) as [Hi Hx]. rewrite Nat.add_0_r in Hi, Hx.
+      rewrite (it_rfold_step a so nd i st x Hi Hx Hp Hc).
+      change (match pan with Some k => Nat.eqb i k | None => false end) with (is_pan pan i).
+      destruct (is_pan pan i) eqn:Hpan.
+      + eexists. split; [reflexivity|]. replace (S i - i) with 1 by lia. cbn.
+        repeat split; try reflexivity. intros acc' H; discriminate.
+      + specialize (IH (S i) (mkP [("index_back", length a - S i)] (s_ev st ++ [EMove x]) (s_calls st ++ [[x]]) (s_written st) (g i (s_acc st) x))).
+        cbn [s_acc s_pos s_calls s_ev] in IH.
+        destruct (fold_loop g pan (S i) (g i (s_acc st) x) l) as [o c] eqn:Hloop.
+        destruct IH as (st' & Hrun & Hp' & He' & Hc' & Ha').
+        * intros j y Hy. replace (S i + j) with (i + S j) by lia. now apply Hl.
+        * reflexivity.
+        * rewrite app_length. cbn. lia.
+        * exists st'. split; [exact Hrun|].
+          assert (Hci : S i <= c) by (eapply fold_loop_ge; exact Hloop).
+          replace (c - i) with (S (c - S i)) by lia. cbn [firstn map].
+          rewrite He', Hc', <- !app_assoc. cbn. repeat split; try reflexivity; assumption.
+  Qed.
+
+  Lemma nth_error_rev {A} (l : list A) j x : nth_error (rev l) j = Some x ->
+    j < length l /\ nth_error l (length l - 1 - j) = Some x.
+  Proof.
+    intros H. assert (Hj : j < length l).
+    { rewrite <- rev_length. apply nth_error_Some. congruence. }
+    split; [exact Hj|].
+    pose proof (nth_error_nth _ _ x H) as Hn. rewrite rev_nth in Hn by exact Hj.
+    rewrite (nth_error_nth' l x) by lia. f_equal.
+    replace (length l - 1 - j) with (length l - S j) by lia. exact Hn.
+  Qed.
+
+  Lemma fold_loop_le : forall l i acc o c, fold_loop g pan i acc l = (o, c) -> c <= i + length l.
+  Proof.
+    induction l as [|y l IHl]; intros i acc o c H; cbn in H.
+    - injection H as _ <-. cbn. lia.
+    - destruct (match pan with Some k => Nat.eqb i k | None => false end).
+      + injection H as _ <-. cbn. lia.
+      + apply IHl in H. cbn. lia.
+  Qed.
+
+  (* what rfold releases when the iterator is dropped by unwinding is the unvisited front part *)
+  Theorem tie_iter_rfold a so nd init :
+    let '(o, m, t, c) := run_fold [a] so f g pan (pipe_of gen_iter_rfold nd) (length a) init in
+    exists t', fold_ true g pan init (rev a) = (o, (m ++ t')%list, List.concat c) /\ Permutation t t'.
+  Proof.
+    unfold run_fold, fold_.
+    pose proof (it_rfold_run_spec a so nd (rev a) 0 (init_state [a] (pipe_of gen_iter_rfold nd) init)) as H.
+    cbn [s_acc init_state] in H.
+    destruct (fold_loop g pan 0 init (rev a)) as [o c] eqn:Hloop.
+    destruct H as (st' & Hrun & Hp' & He' & Hc' & Ha').
+    - intros j x Hj. cbn. now apply nth_error_rev.
+    - cbn. now rewrite Nat.sub_0_r.
+    - reflexivity.
+    - rewrite rev_length in Hrun. rewrite Hrun. rewrite Nat.sub_0_r in *.
+      cbn [s_ev s_calls init_state app] in He', Hc'. rewrite He', Hc'.
+      eexists. split.
+      + f_equal; [f_equal|].
+        * destruct o as [acc'|]; cbn; [|reflexivity]. now rewrite (Ha' acc' eq_refl).
+        * clear. induction (firstn c (rev a)) as [|x l IH]; [reflexivity|]. cbn. f_equal. exact IH.
+      + unfold teardown. cbn. rewrite Hp'. cbn. rewrite app_nil_r.
+        assert (Hc_le : c <= length a).
+        { pose proof (fold_loop_le _ _ _ _ _ Hloop) as H0. rewrite rev_length in H0. lia. }
+        apply Permutation_map.
+        rewrite skipn_rev.
+        apply Permutation_rev.
+  Qed.
+
   (* ---- generate: enumerate + the builder's destination slots; `dst.write(f(i)); *position += 1` ---- *)
   Lemma gen_step so nd i st :
-    s_pos st = posvec (pipe_of gen_generate nd) i -> length (s_calls st) = i ->
+    s_pos st = posvec [] (pipe_of gen_generate nd) i -> length (s_calls st) = i ->
     step [] so f g pan (pipe_of gen_generate nd) i st =
     if is_pan pan i
     then (RPanic, mkP [("position", i)] (s_ev st) (s_calls st ++ [[]]) (s_written st) (s_acc st))
@@ -410,7 +585,7 @@ Section Programs.
 
   Lemma gen_run_ok so nd : forall n i st,
     (forall j, i <= j < i + n -> is_pan pan j = false) ->
-    s_pos st = posvec (pipe_of gen_generate nd) i -> length (s_calls st) = i ->
+    s_pos st = posvec [] (pipe_of gen_generate nd) i -> length (s_calls st) = i ->
     fold_run [] so f g pan (pipe_of gen_generate nd) n i st =
     (true, mkP [("position", i + n)] (s_ev st) (s_calls st ++ repeat [] n)
                (s_written st ++ produced f i (repeat [] n)) (s_acc st), i + n).
@@ -428,7 +603,7 @@ Section Programs.
 
   Lemma gen_run_panic so nd : forall d n i st k,
     k = i + d -> d < n -> is_pan pan k = true -> (forall j, i <= j < k -> is_pan pan j = false) ->
-    s_pos st = posvec (pipe_of gen_generate nd) i -> length (s_calls st) = i ->
+    s_pos st = posvec [] (pipe_of gen_generate nd) i -> length (s_calls st) = i ->
     fold_run [] so f g pan (pipe_of gen_generate nd) n i st =
     (false, mkP [("position", k)] (s_ev st) (s_calls st ++ repeat [] (S d))
                 (s_written st ++ produced f i (repeat [] d)) (s_acc st), S k).
@@ -457,25 +632,25 @@ Section Programs.
   Proof.
     unfold generate_. rewrite zipmap_spec. rewrite repeat_length. unfold run_for_each.
     assert (Hok : (forall j, j < N -> is_pan pan j = false) ->
-      flat5 (let '(ok, st, calls) := fold_run [] so f g pan (pipe_of gen_generate nd) N 0 (init_state (pipe_of gen_generate nd) 0%Z) in
+      flat5 (let '(ok, st, calls) := fold_run [] so f g pan (pipe_of gen_generate nd) N 0 (init_state [] (pipe_of gen_generate nd) 0%Z) in
              if ok then (Ok (s_written st), s_ev st, teardown [] so (pipe_of gen_generate nd) st calls, [], s_calls st)
              else (Panic, s_ev st, teardown [] so (pipe_of gen_generate nd) st calls,
                    builder_teardown (pipe_of gen_generate nd) st, s_calls st)) =
       (Ok (produced f 0 (repeat [] N)), moves [] (repeat [] N), repeat [] N)).
-    { intros Hno. rewrite (gen_run_ok so nd N 0 (init_state (pipe_of gen_generate nd) 0%Z) (fun j Hj => Hno j (proj2 Hj)) (eq_sym (init_pos_zero _)) eq_refl).
+    { intros Hno. rewrite (gen_run_ok so nd N 0 (init_state [] (pipe_of gen_generate nd) 0%Z) (fun j Hj => Hno j (proj2 Hj)) (eq_sym (init_pos_zero [] _ (nb_of gen_generate nd eq_refl))) eq_refl).
       cbn. now rewrite moves_nil. }
     assert (Hcase : (exists k, pan = Some k /\ k < N) \/ (forall j, j < N -> is_pan pan j = false)).
     { unfold is_pan. destruct pan as [k|]; [|right; reflexivity].
       destruct (Nat.ltb_spec k N) as [Hlt|Hge]; [left; eauto|right]. intros j Hj. apply Nat.eqb_neq. lia. }
     destruct Hcase as [(k & Ek & Hlt)|Hno].
-    - rewrite (gen_run_panic so nd k N 0 (init_state (pipe_of gen_generate nd) 0%Z) k eq_refl Hlt).
+    - rewrite (gen_run_panic so nd k N 0 (init_state [] (pipe_of gen_generate nd) 0%Z) k eq_refl Hlt).
       + rewrite Ek. destruct (Nat.ltb_spec k N) as [_|]; [|lia].
         rewrite moves_nil, drops_nil, !firstn_repeat by lia.
         cbn. rewrite firstn_all2 by (rewrite produced_length, repeat_length; lia).
         rewrite app_nil_r. reflexivity.
       + unfold is_pan. rewrite Ek. apply Nat.eqb_refl.
       + intros j Hj. unfold is_pan. rewrite Ek. apply Nat.eqb_neq. lia.
-      + exact (eq_sym (init_pos_zero _)).
+      + exact (eq_sym (init_pos_zero [] _ (nb_of gen_generate nd eq_refl))).
       + reflexivity.
     - rewrite (Hok Hno). unfold is_pan in Hno. destruct pan as [k|]; [|reflexivity].
       destruct (Nat.ltb_spec k N) as [Hlt|]; [|reflexivity].
